@@ -5,6 +5,7 @@ import DW.Props.C06
 import DW.Lemmas.Obl
 import DW.Lemmas.Typed
 import DW.Lemmas.Preserve
+import DW.Lemmas.Progress
 import DW.Lemmas.DefaultPos
 import DW.Props.C16
 
@@ -38,6 +39,12 @@ rustc's type checker is outside the model; what *is* proved about the model:
   type — `bool` for `eq`, `Option<Ordering>` for `partial_cmp`, a well-formed value of the item for `clone` / `default`,
   … (`eval_preserves`, `DW/Lemmas/Preserve.lean`: type preservation for every expression of the fragment, by mutual
   structural induction; `applyFn_preserves` and `matchPat_preserves` relate library calls and patterns).
+* `C02_never_stuck`: **type soundness**, the other half (`eval_progress`, `DW/Lemmas/Progress.lean`): a generated
+  method run on well-formed operands never reaches the evaluator's `stuck` outcome ("rustc would have rejected this":
+  unbound name, ill-shaped call, `match` without a matching arm, cast of a value with fields) — it ends in a value, an
+  early `return`, a panic or undefined behaviour (which of the last two is excluded by C12).  The type checker includes
+  rustc's exhaustiveness check (`Arms.exhaustive`), and `C02_well_typed` therefore also states that every generated
+  `match` is exhaustive.
 Whether rustc accepts the expansion is checked by correspondence B (every
 accepted, well-posed generated item must compile in each configuration).
 -/
@@ -331,6 +338,33 @@ theorem C02_preservation {α} (c : Cfg) (raw : RawItem) (hraw : RawOK raw) (inp 
     have henv := envOK_params inp.item m.sig a other ha ho
     have hres := eval_preserves cx ⟨inp.item, m.sig.ret⟩ himpl hwf m.body m.sig.params _ [] ty hty henv
     exact finish_ok hres hwt hrun
+
+/-- **No generated method gets stuck**: for every validated item, every generated method and all well-formed operands,
+evaluation ends in a value, an early `return`, a panic or undefined behaviour — never in the evaluator's "ill-typed,
+unbound or non-exhaustive" outcome.  (`eval_progress` is the general statement: well-typed expressions do not get stuck.) -/
+theorem C02_never_stuck {α} (c : Cfg) (raw : RawItem) (hraw : RawOK raw) (inp : Input)
+    (h : Input.fromInput c raw = .ok inp) (dw : DeriveWhere) (hdw : dw ∈ inp.deriveWheres)
+    (t : DeriveTrait) (ht : t ∈ dw.traits) (cx : SemCtx α) (himpl : ImplsOK inp.item cx) (htot : CxTotal inp.item cx) :
+    ∀ im ∈ generateImpl c inp dw t, ∀ m ∈ im.methods, ∀ (a : Val α) (other : Option (Val α)), WfVal inp.item a →
+      ((m.sig = .eq ∨ m.sig = .partialCmp ∨ m.sig = .cmp) → ∃ o, other = some o ∧ WfVal inp.item o) →
+      runMethod cx m.body a other ≠ .stuck := by
+  intro im him m hm a other ha ho
+  have hwt := C02_well_typed c raw hraw inp h dw hdw t ht im him m hm
+  have hwf := (Input.fromInput_ok c raw inp h).wf
+  simp only [Method'.wellTyped] at hwt
+  cases hty : m.body.ty ⟨inp.item, m.sig.ret⟩ m.sig.params with
+  | none => simp [hty] at hwt
+  | some ty =>
+    have henv := envOK_params inp.item m.sig a other ha ho
+    have hp := eval_progress cx ⟨inp.item, m.sig.ret⟩ himpl hwf htot m.body m.sig.params _ [] ty hty henv
+    intro hs
+    apply hp
+    unfold runMethod at hs
+    simp only at hs
+    revert hs
+    generalize eval cx _ [] m.body = r
+    intro hs
+    cases r <;> simp_all [Out.finish]
 
 /-- The checker rejects what rustc rejects: `Ord::cmp` applied to two *different* fields, a `match` whose arms
 disagree, `return None` inside `cmp`, an `as` cast of an enum with fields, a struct literal that omits a field. -/
